@@ -273,23 +273,118 @@ example : fillInfo ⟨"secret.blocked.test", 16, 3, ⟨false, 7⟩, some 42, tru
 
 /-! ## Name rules over the modelled grammar -/
 
-/-- **rule_engine_blocks_iff.** Over the rule grammar (`dom`, `||dom^`, `*`, `@@`, `$important`,
-`$dnstype=[~]T`), the engine + wrapper block a name and type exactly when it is non-empty and: no
+/-- **rule_engine_blocks_iff.** Over the modelled rule grammar — hosts-style rules (`name`,
+`IP name1 name2 …`: exact names, several per rule) and network-style rules: a pattern with an optional
+start anchor `||` or `|`, literal characters, `*`, `^` and an optional final `|`, an optional `@@`
+(exception), `$important`, and `$dnstype=` with a list of permitted and `~`restricted types; rules
+that urlfilter refuses as too wide (pattern text shorter than three characters and no `$dnstype`) are
+ignored — the engine + wrapper block a name and type exactly when the name is non-empty and: no
 important exception matches, and an important blocking rule matches, or no exception matches and some
-blocking rule (network-style or hosts-style) matches. -/
+blocking rule (network-style or hosts-style) matches.  "A network rule matches" is `Rule.netMatches`:
+valid, the pattern matches the name (`pattern_matches_iff_spec`), the type is not restricted and is
+permitted if there is a list of permitted types. -/
 theorem rule_engine_blocks_iff (rules : List Rule) (h : String) (qt : Nat) :
     engBlocked (ruleEngine rules h qt) = nameBlockedSpec rules h qt :=
   ruleEngine_blocked rules h qt
 
-/-- Non-vacuity: `||net.test^`, `@@||allow.net.test^`, `||imp.allow.net.test^$important`, `*$dnstype=NS`. -/
+/-- Non-vacuity: `||net.test^`, `@@||allow.net.test^`, `||imp.allow.net.test^$important`, `*$dnstype=NS`,
+hosts-style `host.test`. -/
 example :
-    let rules : List Rule := [⟨.net, "net.test", false, false, .all⟩, ⟨.net, "Allow.net.test", true, false, .all⟩,
-      ⟨.net, "imp.allow.net.test", false, true, .all⟩, ⟨.any, "", false, false, .only 2⟩, ⟨.host, "host.test", false, false, .all⟩]
+    let rules : List Rule := [{ kind := .net, pat := dom "net.test" },
+      { kind := .net, pat := dom "allow.net.test", allow := true },
+      { kind := .net, pat := dom "imp.allow.net.test", important := true },
+      { kind := .net, pat := ⟨.none, [.star], false⟩, permitted := [2] },
+      { kind := .host, hosts := ["host.test"] }]
     engBlocked (ruleEngine rules "a.net.test" 1) = true ∧ engBlocked (ruleEngine rules "anet.test" 1) = false ∧
       engBlocked (ruleEngine rules "x.allow.net.test" 1) = false ∧ engBlocked (ruleEngine rules "imp.allow.net.test" 1) = true ∧
       engBlocked (ruleEngine rules "." 2) = true ∧ engBlocked (ruleEngine rules "." 1) = false ∧
       engBlocked (ruleEngine rules "host.test" 28) = true ∧ engBlocked (ruleEngine rules "x.host.test" 28) = false ∧
       engBlocked (ruleEngine rules "" 2) = false := by
+  decide
+
+/-- **pattern_matches_iff_spec.** The executable pattern matcher decides exactly the declarative
+reading of a pattern (`PatMatches`, written with "the name splits into …" and without the model's
+recursive matchers): each literal character consumes one character equal up to letter case, `*`
+consumes any string, `^` consumes one separator character (anything but letters, digits, space, `.`,
+`%`, `_`, `-`) or nothing at the very end of the name; with a final `|` the tokens must consume the
+name to its end, otherwise a prefix; `|` makes the tokens start at the beginning of the name, no anchor
+lets them start anywhere, and `||` at the beginning or right after a dot that ends a non-empty run of
+host characters (letters, digits, `-`, `_`, `.`). -/
+theorem pattern_matches_iff_spec (p : Pat) (h : List Char) : p.matches h = true ↔ PatMatches p h :=
+  pat_matches_iff p h
+
+/-- Non-vacuity, on the spec side: `|a*c^` over `"abc"` — `a` takes `a`, `*` takes `b`, `c` takes `c`,
+`^` takes the end. -/
+example : PatMatches ⟨.start, [.lit 'a', .star, .lit 'c', .sep], false⟩ ['a', 'b', 'c'] :=
+  ⟨['a'], ['b', 'c'], rfl, ⟨'a', rfl, rfl⟩, ['b'], ['c'], rfl, trivial, ['c'], [], rfl, ⟨'c', rfl, rfl⟩,
+    [], [], rfl, Or.inr ⟨rfl, rfl⟩, by simp [SeqMatch]⟩
+
+/-- … and through the theorem in both directions. -/
+example : PatMatches (dom "net.test") "a.net.test".toList ∧ ¬ PatMatches (dom "net.test") "anet.test".toList := by
+  rw [← pattern_matches_iff_spec, ← pattern_matches_iff_spec]; decide
+
+/-- **net_rule_matches_iff_spec.** A network-style rule applies to a name and a query type exactly when
+it is a network rule that urlfilter keeps (not too wide), its pattern matches the name in the
+declarative reading (`PatMatches`), the type is not among the `~`restricted ones and — if any type is
+permitted — is among the permitted ones. -/
+theorem net_rule_matches_iff_spec (r : Rule) (h : String) (qt : Nat) :
+    r.netMatches h qt = true ↔
+      r.kind = .net ∧ ¬ (r.pat.textLen < 3 ∧ r.permitted = [] ∧ r.restricted = []) ∧ PatMatches r.pat h.toList ∧
+        qt ∉ r.restricted ∧ (r.permitted = [] ∨ qt ∈ r.permitted) := by
+  rw [← pattern_matches_iff_spec]
+  cases hk : r.kind <;>
+    simp [Rule.netMatches, Rule.isNet, Rule.valid, Rule.typeOk, hk, List.isEmpty_iff, and_assoc]
+  intro _ _ _
+  by_cases h1 : r.pat.textLen < 3 <;> by_cases h2 : r.permitted = [] <;> by_cases h3 : r.restricted = [] <;>
+    simp [h1, h2, h3] <;> omega
+
+example :
+    let r : Rule := { kind := .net, pat := ⟨.none, lits "track".toList, false⟩, permitted := [1, 28], restricted := [16] }
+    r.netMatches "mytracker.test" 28 = true ∧ r.netMatches "mytracker.test" 16 = false ∧ r.netMatches "mytracker.test" 2 = false := by
+  decide
+
+/-- **domain_rule_iff.** The most common rule, `||d^`: on names of host characters (letters, digits,
+`-`, `_`, `.`), with `d` and the name in lower case (the engine sees normalised names), it matches
+exactly `d` itself and the names `q.d` with non-empty `q` — the domain and its subdomains, and nothing
+that merely ends in the same letters. -/
+theorem domain_rule_matches_iff (d h : List Char) (hh : ∀ c ∈ h, hostChar c = true)
+    (hdl : ∀ c ∈ d, c.toLower = c) (hhl : ∀ c ∈ h, c.toLower = c) :
+    (⟨.domain, lits d ++ [.sep], false⟩ : Pat).matches h = true ↔
+      h = d ∨ ∃ q, q ≠ [] ∧ h = q ++ '.' :: d :=
+  domain_rule_iff d h hh hdl hhl
+
+/-- Non-vacuity: the hypotheses hold for `d = net.test`, `h = a.net.test`, and both sides are true. -/
+example :
+    (∀ c ∈ "a.net.test".toList, hostChar c = true) ∧ (∀ c ∈ "net.test".toList, c.toLower = c) ∧
+      (∀ c ∈ "a.net.test".toList, c.toLower = c) ∧ (dom "net.test").matches "a.net.test".toList = true ∧
+      "a.net.test".toList = ['a'] ++ '.' :: "net.test".toList := by decide
+
+/-- Wildcards, anchors, `$dnstype` lists and too-wide rules: `||*.cdn.test^`, `|ads.`,
+`track$dnstype=A|AAAA`, `||noa.test^$dnstype=~A`, `ab` (ignored), `ab$dnstype=TXT` (kept),
+`exact.test|`, and a hosts-style rule with two names. -/
+example :
+    let star : Pat := ⟨.domain, [.star] ++ lits ".cdn.test".toList ++ [.sep], false⟩
+    let ads : Pat := ⟨.start, lits "ads.".toList, false⟩
+    let ab : Pat := ⟨.none, lits "ab".toList, false⟩
+    let rules : List Rule := [{ kind := .net, pat := star }, { kind := .net, pat := ads },
+      { kind := .net, pat := ⟨.none, lits "track".toList, false⟩, permitted := [1, 28] },
+      { kind := .net, pat := dom "noa.test", restricted := [1] },
+      { kind := .net, pat := ab },
+      { kind := .net, pat := ⟨.none, lits "exact.test".toList, true⟩ },
+      { kind := .host, hosts := ["h1.test", "H2.test"] }]
+    star.matches "a.cdn.test".toList = true ∧ star.matches "cdn.test".toList = false ∧
+      ads.matches "ads.x.test".toList = true ∧ ads.matches "bads.x.test".toList = false ∧
+      engBlocked (ruleEngine rules "a.cdn.test" 1) = true ∧ engBlocked (ruleEngine rules "cdn.test" 1) = false ∧
+      engBlocked (ruleEngine rules "ads.x.test" 1) = true ∧ engBlocked (ruleEngine rules "bads.x.test" 1) = false ∧
+      engBlocked (ruleEngine rules "mytracker.test" 1) = true ∧ engBlocked (ruleEngine rules "mytracker.test" 28) = true ∧
+      engBlocked (ruleEngine rules "mytracker.test" 16) = false ∧
+      engBlocked (ruleEngine rules "noa.test" 28) = true ∧ engBlocked (ruleEngine rules "noa.test" 1) = false ∧
+      ab.matches "abc.test".toList = true ∧ (⟨.net, [], ab, false, false, [], []⟩ : Rule).valid = false ∧
+      engBlocked (ruleEngine rules "abc.test" 16) = false ∧
+      engBlocked (ruleEngine ({ kind := .net, pat := ab, permitted := [16] } :: rules) "abc.test" 16) = true ∧
+      engBlocked (ruleEngine rules "my.exact.test" 1) = true ∧ engBlocked (ruleEngine rules "exact.test.x" 1) = false ∧
+      engBlocked (ruleEngine rules "h1.test" 1) = true ∧ engBlocked (ruleEngine rules "h2.test" 1) = true ∧
+      engBlocked (ruleEngine rules "h3.test" 1) = false := by
   decide
 
 /-! ## The two repaired defects: counter-examples against the code as it was -/
@@ -313,7 +408,7 @@ theorem pre_fix_root_query_counterexample :
         engBlocked (ruleEngine rules (normQueryDomain r.qname) r.qtype) = true →
         (wrapPre accessReasonPre { nets := [], eng := ruleEngine rules } r).effects = [] := by
   intro h
-  have := h [⟨.any, "", false, false, .only 2⟩]
+  have := h [{ kind := .net, pat := ⟨.none, [.star], false⟩, permitted := [2] }]
     { addr := ⟨true, 9⟩, port := 4000, qname := ".", qtype := 2, asn := none, ecsBad := false, dev := .none }
     (by decide)
   revert this
@@ -333,7 +428,7 @@ theorem pre_fix_device_error_counterexample :
 
 /-- The repaired handler drops all three witnesses. -/
 example :
-    (wrap { nets := [], eng := ruleEngine [⟨.any, "", false, false, .only 2⟩] }
+    (wrap { nets := [], eng := ruleEngine [{ kind := .net, pat := ⟨.none, [.star], false⟩, permitted := [2] }] }
       { addr := ⟨true, 9⟩, port := 4000, qname := ".", qtype := 2, asn := none, ecsBad := false, dev := .none }).effects = [] ∧
     (wrap { nets := [⟨true, 0x0A010200, 24⟩], eng := fun _ _ => ⟨false, none⟩ }
       { addr := ⟨true, 0x0A010209⟩, port := 4000, qname := "ok.test.", qtype := 1, asn := none, ecsBad := true,
@@ -341,6 +436,125 @@ example :
     wire { nets := [⟨true, 0x7F000000, 8⟩], eng := fun _ _ => ⟨false, none⟩ }
       { addr := ⟨true, 0x7F000001⟩, port := 4000, qname := "ok.test.", qtype := 1, asn := none, ecsBad := false,
         dev := .error } = [] := by decide
+
+/-! ## Through the server: what a rejected client sees on the wire
+
+`blocked_no_trace` is about the handler.  Around it, the server looks at the shape of the message
+before the handler runs (`acceptMsg`) and the protocol server reacts when nothing was written
+(`noResponse`), so "receives no response at all" holds only in part; "reaches no later stage" holds in
+full. -/
+
+/-- **accept_iff.** `acceptMsg` lets a message through to the handler exactly when it is a query (not
+a response) with opcode QUERY or NOTIFY, one question, at most one answer and at most one authority
+record. -/
+theorem accept_iff (m : MsgShape) :
+    acceptMsg m = .accept ↔
+      m.response = false ∧ (m.opcode = 0 ∨ m.opcode = 4) ∧ m.nQ = 1 ∧ m.nAns ≤ 1 ∧ m.nNs ≤ 1 := by
+  unfold acceptMsg
+  cases hr : m.response
+  · by_cases h0 : m.opcode = 0 <;> by_cases h4 : m.opcode = 4 <;> by_cases hq : m.nQ = 1 <;>
+      by_cases ha : m.nAns > 1 <;> by_cases hn : m.nNs > 1 <;> simp [h0, h4, hq, ha, hn] <;> omega
+  · simp
+
+example : acceptMsg {} = .accept ∧ acceptMsg { opcode := 4, nAns := 1, nNs := 1 } = .accept ∧
+    acceptMsg { opcode := 2 } = .notImpl ∧ acceptMsg { nQ := 2 } = .reject ∧ acceptMsg { nQ := 0 } = .reject ∧
+    acceptMsg { nAns := 2 } = .reject ∧ acceptMsg { nNs := 2 } = .reject ∧
+    acceptMsg { response := true, opcode := 2 } = .ignore := by decide
+
+/-- **server_wire_blocked.** For a rejected request, exactly what the client gets, for every protocol
+and every message shape: the server's own FORMERR or NOTIMP when `acceptMsg` refuses the message (the
+handler, and with it access control, never runs), and otherwise the protocol's reaction to silence —
+nothing over UDP, TCP and DoT, HTTP 500 over DoH, SERVFAIL over DoQ and DNSCrypt. -/
+theorem server_wire_blocked (p : Proto) (m : MsgShape) (g : Global) (r : Req) (nw : Bool)
+    (h : blocked g r = true) :
+    serverWire p m g r nw =
+      match acceptMsg m with
+      | .reject => [.srvFormerr]
+      | .notImpl => [.srvNotimp]
+      | _ => noResponse p := by
+  unfold serverWire
+  rw [wrap_blocked_effects g r h, wrap_blocked_err g r h]
+  cases acceptMsg m <;> simp [sent]
+
+def exBlockedG : Global := { nets := [⟨true, 0x0A010200, 24⟩], eng := fun _ _ => ⟨false, none⟩ }
+def exBlockedR : Req :=
+  { addr := ⟨true, 0x0A010209⟩, port := 4000, qname := "ok.test.", qtype := 1, asn := none, ecsBad := true, dev := .error }
+
+/-- Non-vacuity: a client in a globally blocked subnet, malformed ECS, failing device finder. -/
+example : blocked exBlockedG exBlockedR = true ∧
+    serverWire .udp {} exBlockedG exBlockedR true = [] ∧ serverWire .tcp {} exBlockedG exBlockedR true = [] ∧
+    serverWire .dot {} exBlockedG exBlockedR true = [] ∧ serverWire .doh {} exBlockedG exBlockedR true = [.http500] ∧
+    serverWire .doq {} exBlockedG exBlockedR true = [.srvServfail] ∧
+    serverWire .dnscrypt {} exBlockedG exBlockedR true = [.srvServfail] ∧
+    serverWire .udp { nQ := 2 } exBlockedG exBlockedR true = [.srvFormerr] ∧
+    serverWire .udp { opcode := 5 } exBlockedG exBlockedR true = [.srvNotimp] ∧
+    serverWire .udp { response := true } exBlockedG exBlockedR true = [] := by decide
+
+/-- **blocked_server_no_later_stage.** "Reaches no later stage" holds at full strength through the
+server: for a rejected request, whatever the protocol and the message shape, the next stage does not
+run, and neither a response of the next stage nor the middleware's FORMERR reaches the client. -/
+theorem blocked_server_no_later_stage (p : Proto) (m : MsgShape) (g : Global) (r : Req) (nw : Bool)
+    (h : blocked g r = true) :
+    serverReachedNext m g r = false ∧ Reply.fromNext ∉ serverWire p m g r nw ∧
+      Reply.mwFormerr ∉ serverWire p m g r nw := by
+  rw [server_wire_blocked p m g r nw h]
+  refine ⟨by simp [serverReachedNext, wrap_blocked_effects g r h], ?_, ?_⟩ <;>
+    cases acceptMsg m <;> cases p <;> simp [noResponse]
+
+/-- Non-vacuity: the same request from an address outside the blocked subnet does reach the next stage. -/
+example : serverReachedNext {} exBlockedG exBlockedR = false ∧
+    serverReachedNext {} exBlockedG { exBlockedR with addr := ⟨true, 0x0A010309⟩, ecsBad := false, dev := .none } = true ∧
+    serverWire .doq {} exBlockedG { exBlockedR with addr := ⟨true, 0x0A010309⟩, ecsBad := false, dev := .none } true = [.fromNext] := by
+  decide
+
+/-- **blocked_silent_on_server_iff.** A rejected request gets nothing at all on the wire exactly when
+`acceptMsg` accepts or ignores the message and the protocol is UDP, TCP or DoT. -/
+theorem blocked_silent_on_server_iff (p : Proto) (m : MsgShape) (g : Global) (r : Req) (nw : Bool)
+    (h : blocked g r = true) :
+    serverWire p m g r nw = [] ↔
+      (acceptMsg m = .accept ∨ acceptMsg m = .ignore) ∧ (p = .udp ∨ p = .tcp ∨ p = .dot) := by
+  rw [server_wire_blocked p m g r nw h]
+  cases acceptMsg m <;> cases p <;> simp [noResponse]
+
+example : serverWire .dot { response := true } exBlockedG exBlockedR false = [] ∧
+    serverWire .doh { response := true } exBlockedG exBlockedR false ≠ [] := by decide
+
+/-- **blocked_silent_on_wire_partial.** The part of "receives no response at all" that holds: a
+well-formed query (one `acceptMsg` accepts) of a rejected client over UDP, TCP or DoT is answered with
+nothing. -/
+theorem blocked_silent_on_wire_partial (p : Proto) (m : MsgShape) (g : Global) (r : Req) (nw : Bool)
+    (h : blocked g r = true) (ha : acceptMsg m = .accept) (hp : p = .udp ∨ p = .tcp ∨ p = .dot) :
+    serverWire p m g r nw = [] :=
+  (blocked_silent_on_server_iff p m g r nw h).mpr ⟨Or.inl ha, hp⟩
+
+example : blocked exBlockedG exBlockedR = true ∧ acceptMsg {} = .accept ∧
+    serverWire .udp {} exBlockedG exBlockedR true = [] := by decide
+
+/-- **server_rejected_message_counterexample.** The full statement "a rejected client receives no
+response at all" is false through the server: a STATUS message (opcode 2) over UDP from a client in a
+globally blocked subnet is answered NOTIMP, because `acceptMsg` runs before access control. -/
+theorem server_rejected_message_counterexample :
+    ¬ ∀ (p : Proto) (m : MsgShape) (g : Global) (r : Req) (nw : Bool),
+        blocked g r = true → serverWire p m g r nw = [] := by
+  intro h
+  have := h .udp { opcode := 2 } exBlockedG exBlockedR true (by decide)
+  revert this
+  decide
+
+example : serverWire .udp { opcode := 2 } exBlockedG exBlockedR true = [.srvNotimp] := by decide
+
+/-- **doq_no_response_counterexample.** … and even for well-formed queries it is false over DoQ (and
+DNSCrypt): the handler writes nothing, and the protocol server answers SERVFAIL for "no response". -/
+theorem doq_no_response_counterexample :
+    ¬ ∀ (m : MsgShape) (g : Global) (r : Req) (nw : Bool),
+        blocked g r = true → acceptMsg m = .accept → serverWire .doq m g r nw = [] := by
+  intro h
+  have := h {} exBlockedG exBlockedR true (by decide) (by decide)
+  revert this
+  decide
+
+example : serverWire .doq {} exBlockedG exBlockedR true = [.srvServfail] ∧
+    serverWire .dnscrypt {} exBlockedG exBlockedR true = [.srvServfail] := by decide
 
 #print axioms blocked_iff
 #print axioms prefix_contains_iff
@@ -359,5 +573,15 @@ example :
 #print axioms rule_engine_blocks_iff
 #print axioms pre_fix_bad_ecs_counterexample
 #print axioms pre_fix_root_query_counterexample
+#print axioms pattern_matches_iff_spec
+#print axioms net_rule_matches_iff_spec
+#print axioms domain_rule_matches_iff
+#print axioms accept_iff
+#print axioms server_wire_blocked
+#print axioms blocked_server_no_later_stage
+#print axioms blocked_silent_on_server_iff
+#print axioms blocked_silent_on_wire_partial
+#print axioms server_rejected_message_counterexample
+#print axioms doq_no_response_counterexample
 
 end Agd.Access
